@@ -75,13 +75,47 @@ def gen_string(rng, maxlen=64, lenchg=False):
     return s if valid_password(s) else 'x'
 
 def gen_history(rng):
-    """Prior training list for the multi-word detector: some words at, just below and above the threshold (5)."""
+    """Prior training list for the multi-word detector: words at, just below and above the threshold (5); passwords of arbitrary structure
+    (short and long alpha runs separated by digits/symbols) repeated often enough that anything the detector tallies wrongly reaches the threshold."""
     hist = []
     for w in rng.sample(WORDS + ['super', 'man1', 'blue', 'house', 'star', 'wars', 'base', 'ball', 'love', 'test', 'pass', 'word'], 12):
         hist += [trainlists.cap(rng, w) + rng.choice(['', '1', '!', '12'])] * rng.choice([0, 1, 4, 5, 5, 6, 9])
     hist += [rng.choice(trainlists.MULTI)] * rng.choice([0, 1, 5])
+    shorts = ['my', 'a', 'ab', 'abc', 'i', 'xy', 'the', 'qq', 'я', 'да']
+    for _ in range(rng.randint(2, 6)):
+        parts = [rng.choice(shorts + WORDS) for _ in range(rng.randint(2, 4))]
+        seps = [rng.choice(['1', '-', '!', '12', '_', '.', ' ']) for _ in parts]
+        pw = ''.join(p + s for p, s in zip(parts, seps))[:-1]
+        hist += [pw[:21]] * rng.choice([1, 5, 6, 7])
+    for _ in range(rng.randint(0, 5)):
+        hist += [gen_string(rng, maxlen=21)] * rng.choice([1, 5, 8])
     rng.shuffle(hist)
     return hist
+
+def glued_candidates(rng, history, k):
+    """Strings made of adjacent alpha runs of history passwords glued together (+ a frequent word): what a mis-tallying detector would split."""
+    out = []
+    runs_of = []
+    for pw in set(history):
+        runs, cur = [], ''
+        for ch in pw.lower() + '\0':
+            if ch.isalpha():
+                cur += ch
+            else:
+                if cur:
+                    runs.append(cur)
+                cur = ''
+        if len(runs) >= 2:
+            runs_of.append(runs)
+    for _ in range(k):
+        if not runs_of:
+            break
+        runs = rng.choice(runs_of)
+        i = rng.randrange(len(runs) - 1)
+        glued = runs[i] + runs[i + 1]
+        s = rng.choice([glued + rng.choice(WORDS), rng.choice(WORDS) + glued, glued, glued + '1', glued + rng.choice(WORDS) + '!'])
+        out.append(trainlists.cap(rng, s)[:30])
+    return [s for s in out if valid_password(s)]
 
 def classify(pw, kinds, exc=None):
     """Mechanism keys of the recorded findings, decided from the INPUT (and, for F-C05b, the exception type + frames)."""
@@ -203,7 +237,11 @@ def run(run, rng):
     done = 0
     while done < n:
         lenchg = (done // BATCH) % 12 == 11            # every 12th batch is the U+0130 class
-        case = {'history': gen_history(rng), 'strings': [gen_string(rng, lenchg=lenchg) for _ in range(BATCH)]}
+        hist = gen_history(rng)
+        strings = [gen_string(rng, lenchg=lenchg) for _ in range(BATCH - 40)] + glued_candidates(rng, hist, 40)
+        if not lenchg:
+            strings = [''.join(c if len(c.lower()) == 1 else 'I' for c in x) for x in strings]
+        case = {'history': hist, 'strings': strings}
         run.guard(case, check_batch, seconds=300)
         done += BATCH
     if run.tier == 'thorough' and run.shard[0] == 0:
